@@ -226,6 +226,7 @@ int32_t jls_twr_open(struct jls_twr_s ** instance, const char * path) {
     self->wr = wr;
     self->flush_send_id = 0;
     self->flush_processed_id = 0;
+    memset(self->fsr_entry_size_bits, 0, sizeof(self->fsr_entry_size_bits));  // undefined signals have no sample size
 
     jls_mrb_init(&self->mrb, self->mrb_buffer, MRB_BUFFER_SIZE);
     self->bk = jls_bkt_initialize(self);
